@@ -33,7 +33,7 @@ func c13FreeReal(raw json.RawMessage) any {
 	errAt := c13ErrSet(a.Errs)
 	out := &c13Out{}
 	for i := 0; i < a.Budget; i++ {
-		s := &c13Sched{free: true, limit: a.Limit}
+		s := &c13Sched{free: true, limit: a.Limit, ctx: context.Background()}
 		var jmu sync.Mutex
 		jr := rand.New(rand.NewSource(a.Seed*31 + int64(i)))
 		jitter := func() int { jmu.Lock(); defer jmu.Unlock(); return jr.Intn(8) }
